@@ -16,9 +16,16 @@
 (*        Sat / SatB of Semantics.tla give their denotation                 *)
 (*                                                                          *)
 (* F is a set of feature flags.  The flags in LegacyFaithful switch on the  *)
-(* behaviours of beartype 0.23.0 that the property forbids; the empty set   *)
-(* is the relation the property demands (a sound preorder).  Flags in       *)
-(* Mutants are plausible wrong designs used as spec mutants (non-vacuity).  *)
+(* behaviours of beartype 0.23.0 that break a law of the property (or that  *)
+(* the demanded relation must not have); the empty set is the relation the  *)
+(* property demands: a sound preorder in which Any is the top element only, *)
+(* Literal members are compared by type and value and member by member      *)
+(* against the branches of a union, Annotated metahints must be subhints,   *)
+(* Callable parameters are contravariant, hints of different arity are      *)
+(* incomparable instead of "undecidable".  LegacyFixed is the tree with     *)
+(* /verif/proposed_fixes/C19-*.diff applied.  Flags in Mutants are plausible*)
+(* wrong designs used as spec mutants (non-vacuity); "no_wrapper_cache" is  *)
+(* the spec mutant of the doormeta cache in MC_Subhint.tla.                 *)
 (***************************************************************************)
 EXTENDS Semantics
 
@@ -36,7 +43,8 @@ LegacyFaithful == {
   "raw_hash",            \* doorsuper.__hash__: hash of the wrapped hint although __eq__ is semantic
   "kids_not_args"        \* Literal / TypeVar / Callable wrappers: len/iter/[] disagree with .args
 }
-\* the tree with proposed_fixes/C19-*.diff applied
+\* the tree with proposed_fixes/C19-1..4 applied (Any as bottom, the Callable rules, __hash__ and the children
+\* of Literal / TypeVar / Callable wrappers are pinned by the upstream tests or are design decisions)
 LegacyFixed == LegacyFaithful \ {"lit_untyped_in", "lit_generic_fallback", "ann_not_gt", "arity_raises",
                                     "tvar_branch_opaque"}
 Mutants == {"issubclass_swapped", "union_any_for_all", "lit_ignores_member_types", "tuple_zip_short"}
